@@ -52,6 +52,9 @@ MID = [
     "</p><p><i>Bar</i> again.",
     " (<em>Bar,</em> dissenting).",
     " In <i>Li</i> we held.",
+    # a second case whose parenthetical mentions the first one in a style tag, directly followed by a supra / short form
+    " Doe v. Roe, 2 U.S. 2 (1991) (citing <em>Bar</em>, supra, at 5).",
+    " Doe v. Roe, 2 U.S. 2 (1991) (citing <em>Bar,</em> 1 U.S., at 5).",
     " Li at 7 says, and <em>Roe</em> too.",
     "",
 ]
